@@ -245,6 +245,15 @@ def kwargsOf (params : List String) (dependsOn produces : Dict (T (Node V P))) :
     (produces.filter (fun kv => !Generated.productsNeedParameter || params.contains kv.1))
   Dict.update fromDeps fromProds
 
+/-- Task generators (`@task(is_generator=True)`) do not go through `execute.pytask_execute_task`:
+`provisional.pytask_execute_task` has its own copy of the kwargs loops (`provisional.py:57-67`); its
+`is_product` flags and parameter guard are read from the source (`Generated.generator…`). -/
+def kwargsOfGen (params : List String) (dependsOn produces : Dict (T (Node V P))) : Dict (T (Obj V P)) :=
+  let fromDeps := Dict.mapVals (bind (load Generated.generatorDepsAsProducts)) dependsOn
+  let fromProds := Dict.mapVals (bind (load Generated.generatorProductsAsProducts))
+    (produces.filter (fun kv => !Generated.generatorProductsNeedParameter || params.contains kv.1))
+  Dict.update fromDeps fromProds
+
 /-- Python's call `function(**kw)`: `TypeError` for an unexpected keyword or a missing argument. -/
 def callable (f : Func V P) (kw : Dict (T (Obj V P))) : Bool :=
   kw.all (fun kv => f.paramNames.contains kv.1) &&
@@ -272,6 +281,12 @@ def collectTask (f : Func V P) : Except Err (Task V P) :=
 /-- what the body sees: one binding per parameter, or `TypeError`. -/
 def received (f : Func V P) (t : Task V P) : Except Err (Dict (T (Obj V P))) :=
   let kw := kwargsOf f.paramNames t.dependsOn t.produces
+  if callable f kw then .ok (f.params.filterMap (fun p => (bound kw p).map (fun v => (p.name, v))))
+  else .error .typeError
+
+/-- what the body of a task generator sees. -/
+def receivedGen (f : Func V P) (t : Task V P) : Except Err (Dict (T (Obj V P))) :=
+  let kw := kwargsOfGen f.paramNames t.dependsOn t.produces
   if callable f kw then .ok (f.params.filterMap (fun p => (bound kw p).map (fun v => (p.name, v))))
   else .error .typeError
 
